@@ -22,6 +22,9 @@ func checkC17(c *Ctx) {
 	r171b(c)
 	r172(c)
 	r173(c)
+	// a wait performed while a lock is held makes every command that needs that lock wait as long (list, resume, remove
+	// and the rollout commands must return without waiting): shared with C18
+	r182(c, "R17.4 no-wait-while-holding-a-lock")
 }
 
 // commandReach: functions a command handler runs synchronously: static calls, closure arguments,
